@@ -28,12 +28,10 @@ func (m *Module) Init(s *models.Session, p *models.Participant) {
 
 	state, ok := s.ModuleState(m.Name())
 	if !ok {
-		state = &State{}
+		state = &State{SpatialPartition: NewRegularGrid(1, 1, 2)}
 		s.SetModuleState(m.Name(), state)
 	}
 	m.state = state.(*State)
-
-	m.state.SpatialPartition = NewRegularGrid(1, 1, 2)
 }
 
 func (m *Module) HandleMsg(ctx context.Context, respond hwebsocket.ResponseSender, msg hwebsocket.Msg) error {
